@@ -106,11 +106,12 @@ pub fn render_store(s: &MetaStore) -> String {
         .values()
         .map(|p| {
             format!(
-                "{}|{}|{}|{}|{}",
+                "{}|{}|{}|{}|{}|{}",
                 p.proxy_address,
                 p.node_addresses[0],
                 p.node_addresses[1],
                 p.host,
+                p.index,
                 p.cluster.as_ref().map(|c| c.to_string()).unwrap_or_else(|| "~".to_string())
             )
         })
@@ -135,8 +136,9 @@ pub fn render_store(s: &MetaStore) -> String {
         .collect();
     cs.sort();
     format!(
-        "G={} P={} F={} R={} C={}",
+        "G={} O={} P={} F={} R={} C={}",
         s.global_epoch,
+        if s.enable_ordered_proxy { 1 } else { 0 },
         ps.join(","),
         fs.join(","),
         rs.join(","),
